@@ -139,13 +139,31 @@ impl C19 {
                 v.finding = Some("S9-stableswap-skewed-pool-accuracy".into());
                 v.truncate = false;
             }
-            // envelope S11: outside the band by at most 6 smallest units of the ask token
-            // (+ the swap path's fixed-point slack on pools worth a tiny fraction of a token)
+            // envelope S11: the contract's D stops within a step of one smallest unit and its
+            // divisions floor, so its D may be up to 2 units (at the pool's highest precision) away
+            // from the exact root. The quote is then the exact solution for such a D: on skewed,
+            // low-amplification pools dy/dD reaches ~10, elsewhere it is below 1. Envelope = outside
+            // the band by at most 6 ask units (measured) or by what 2 units of D explain, whichever
+            // is larger (+ the swap path's fixed-point slack on pools worth a fraction of a token).
             let six = &unit_j * 6u32 * &r + super::c03::fixed_point_slack(mx, &d);
             let beyond = if g > hi_b { &g - &hi_b } else if lo_b > g { &lo_b - &g } else { BigUint::zero() };
-            if beyond <= six {
+            let two_d = &r * 2u32;
+            let d_hi = &d + &two_d;
+            let d_lo = if d > two_d { &d - &two_d } else { BigUint::zero() };
+            let by_d = match (exact_out(&st, &xs, &d_hi, i, j, &lo_off), exact_out(&st, &xs, &d_lo, i, j, &hi_off)) {
+                (Some(lo2), Some(hi2)) => {
+                    let lo2b = if lo2 > tol { &lo2 - &tol } else { BigUint::zero() };
+                    let hi2b = &hi2 + &tol + super::c03::fixed_point_slack(mx, &d);
+                    g >= lo2b && g <= hi2b
+                }
+                _ => false,
+            };
+            if beyond <= six || by_d {
                 v.finding = Some("S11-quote-accuracy-within-8-units".into());
                 v.truncate = false;
+                if by_d && beyond > six {
+                    c.stats.bump("probe.c19.s11_explained_by_two_units_of_d");
+                }
             }
             return Err(v);
         }
